@@ -3,6 +3,7 @@ package main
 // C02 — no silent corruption: every integrity gate dominates success.
 
 import (
+	"fmt"
 	"go/token"
 	"strings"
 
@@ -91,7 +92,10 @@ func c02Digest(c *Ctx) {
 		c.check(good, "sendFileMD5/echo", c.ipos(call), "the digest sent is the digest the echo is compared with", "sendFileMD5 compares the echo with a different value than it sent")
 	}
 	// per-file loops: digest argument comes from the data stage of the same iteration; MD5 exchange cannot be skipped
-	for _, side := range []struct{ loop, md5, name string; data []string }{
+	for _, side := range []struct {
+		loop, md5, name string
+		data            []string
+	}{
 		{"trzszTransfer.recvFiles", tT + "recvFileMD5", "recvFiles", []string{tT + "recvFileDataV2", tT + "recvFileData"}},
 		{"trzszTransfer.sendFiles", tT + "sendFileMD5", "sendFiles", []string{tT + "sendFileDataV2", tT + "sendFileData"}},
 	} {
@@ -592,6 +596,18 @@ func c02Decode(c *Ctx) {
 			c.check(good, "recvData/no-leftover", c.ipos(in), "decoded chunk accepted only when nothing remained undecoded", "decoded chunk accepted with undecoded bytes remaining")
 		})
 	}
+	// (b2) what a decoder hands back is looked at only after its error
+	nUse := 0
+	for _, f := range c.AllFns {
+		for _, ci := range callsIn(f, idIs("trzsz.unescapeData", "trzsz.decodeString", "trzsz.unmarshalSourceFile", "trzsz.unmarshalTargetFile", "trzsz.parseTrzszVersion")) {
+			if call, ok := ci.(*ssa.Call); ok {
+				nUse += resultsAfterErrCheck(c, c.fnName(f)+"/"+strings.TrimPrefix(calleeID(&call.Call), "trzsz."), call)
+			}
+		}
+	}
+	if nUse < 10 {
+		c.undecided("decoders/result-used-after-error-check", "fewer decoder result uses than expected")
+	}
 	// (c) reader error other than EOF cancels; loops continue only on err == nil
 	for _, nm := range []struct{ fn, method string }{{"trzszTransfer.pipelineDecodeData$1", "Read"}, {"trzszTransfer.pipelineReadData$1", "Read"}} {
 		f := c.fn(nm.fn)
@@ -680,17 +696,17 @@ var errTrackedStd = map[string]bool{
 
 // bestEffort: functions whose ignored errors are by design (one line of reason each).
 var errBestEffort = map[string]string{
-	"trzszTransfer.clientError": "error report to the peer is best effort; the transfer already failed",
-	"trzszTransfer.serverError": "error report to the peer is best effort; the transfer already failed",
-	"TrzszRelay.sendError":      "relay error report is best effort",
-	"newTrzszError":             "decoding the peer's error text falls back to showing the raw text",
-	"encodeBytes":               "zlib writer into a bytes.Buffer cannot fail",
-	"traceLogger.writeTraceLog": "trace log is diagnostics only",
-	"traceLogger.writeTraceLog$1": "trace log is diagnostics only",
-	"hideCursor":                "cursor escape sequence to the terminal is cosmetic",
-	"showCursor":                "cursor escape sequence to the terminal is cosmetic",
+	"trzszTransfer.clientError":     "error report to the peer is best effort; the transfer already failed",
+	"trzszTransfer.serverError":     "error report to the peer is best effort; the transfer already failed",
+	"TrzszRelay.sendError":          "relay error report is best effort",
+	"newTrzszError":                 "decoding the peer's error text falls back to showing the raw text",
+	"encodeBytes":                   "zlib writer into a bytes.Buffer cannot fail",
+	"traceLogger.writeTraceLog":     "trace log is diagnostics only",
+	"traceLogger.writeTraceLog$1":   "trace log is diagnostics only",
+	"hideCursor":                    "cursor escape sequence to the terminal is cosmetic",
+	"showCursor":                    "cursor escape sequence to the terminal is cosmetic",
 	"textProgressBar.writeProgress": "progress rendering is cosmetic",
-	"trzszTransfer.resetTerm":   "terminal restore is best effort",
+	"trzszTransfer.resetTerm":       "terminal restore is best effort",
 }
 
 // errTestContinues: tested errors whose non-nil edge legitimately continues (one line of reason each).
@@ -812,33 +828,58 @@ func c02Resume(c *Ctx) {
 	// the receiver records (total - offset) where offset is the value it truncated at
 	var fld string
 	truncs := callsIn(rp, idIs("(*os.File).Truncate"))
-	if len(truncs) != 1 {
+	if len(truncs) == 0 {
 		c.lost("Truncate in recvPrefixHash")
 	}
-	m := truncs[0].Common().Args[1]
-	eachInstr(rp, func(in ssa.Instruction) {
-		st, ok := in.(*ssa.Store)
-		if !ok {
-			return
-		}
-		b, ok := strip(st.Val).(*ssa.BinOp)
-		if !ok || b.Op != token.SUB || !sameValue(b.Y, m) {
-			return
-		}
-		if n, ok := fieldAddrName(st.Addr); ok && strings.HasPrefix(n, "trzszTransfer.") {
-			fld = n
-			// total: received SIZE (v3) or the decoded source size (v4)
-			good := true
-			for _, l := range origins(b.X, originOpts{}) {
-				call, idx := callOf(l.V)
-				isSize := call != nil && idx == 0 && calleeID(&call.Call) == tT+"recvInteger"
-				if !isSize && !isFieldLoad("Size")(l.V) {
-					good = false
-				}
+	isTotal := func(v ssa.Value) bool {
+		// total: received SIZE (v3) or the decoded source size (v4)
+		for _, l := range origins(v, originOpts{}) {
+			call, idx := callOf(l.V)
+			isSize := call != nil && idx == 0 && calleeID(&call.Call) == tT+"recvInteger"
+			if !isSize && !isFieldLoad("Size")(l.V) {
+				return false
 			}
-			c.check(good && domI(truncs[0].(ssa.Instruction), st), "recvPrefixHash/records-remaining", c.ipos(st), "the receiver records source size minus the offset it truncated at", "the recorded remainder is not (source size - truncation offset)")
 		}
-	})
+		return true
+	}
+	for ti, tr := range truncs {
+		m := tr.Common().Args[1]
+		mz, mConst := constInt(m)
+		records := func(in ssa.Instruction) bool {
+			st, ok := in.(*ssa.Store)
+			if !ok {
+				return false
+			}
+			n, ok := fieldAddrName(st.Addr)
+			if !ok || !strings.HasPrefix(n, "trzszTransfer.") {
+				return false
+			}
+			if b, ok := strip(st.Val).(*ssa.BinOp); ok && b.Op == token.SUB && sameValue(b.Y, m) && isTotal(b.X) {
+				fld = n
+				return true
+			}
+			if mConst && mz == 0 && fld != "" && n == fld && isTotal(st.Val) {
+				return true
+			}
+			return false
+		}
+		// find the field first (any recording store in the function)
+		eachInstr(rp, func(in ssa.Instruction) { records(in) })
+		var errIf *ssa.If
+		if tc, ok := tr.(*ssa.Call); ok {
+			if u := classifyErrUse(errorValueOf(tc)); len(u.tests) == 1 {
+				errIf = u.tests[0]
+			}
+		}
+		hit, path := reachFromE(tr.Block(), instrIndex(tr)+1, isReturn, records, func(from, to *ssa.BasicBlock) bool {
+			return errIf != nil && from == errIf.Block() && to == from.Succs[nonNilEdge(errIf)]
+		})
+		key := "recvPrefixHash/records-remaining"
+		if ti > 0 {
+			key = fmt.Sprintf("recvPrefixHash/records-remaining#%d", ti+1)
+		}
+		c.check(hit == nil, key, c.ipos(tr), "after truncating the receiver records source size minus the offset it truncated at", "the file is truncated and the function returns without recording (source size - truncation offset): nothing cross-checks the sender's resume offset against the receiver's", c.pathStr(path)...)
+	}
 	if fld == "" {
 		c.bad("recvPrefixHash/records-remaining", c.pos(rp.Pos()), "after a resume the receiver does not record how many bytes it still expects: nothing cross-checks the sender's resume offset against the receiver's (a lost hash ack ends in a silently wrong file)")
 		return
@@ -1142,8 +1183,14 @@ func c02AckFormat(c *Ctx) {
 		}
 	}
 	c.check(okSep, "pipelineRecvCurrentAck/separator", c.pos(p.Pos()), "the parser splits the ack at the separator the writer uses", "the parser splits the ack at another separator than the writer puts between the two numbers")
-	okN = factCmpAnywhere(p, token.NEQ, func(v ssa.Value) bool { lc, _ := callOf(v); return lc != nil && calleeID(&lc.Call) == "builtin len" && tokens != nil && lc.Call.Args[0] == tokens }, isConstIntV(2)) ||
-		factCmpAnywhere(p, token.EQL, func(v ssa.Value) bool { lc, _ := callOf(v); return lc != nil && calleeID(&lc.Call) == "builtin len" && tokens != nil && lc.Call.Args[0] == tokens }, isConstIntV(2))
+	okN = factCmpAnywhere(p, token.NEQ, func(v ssa.Value) bool {
+		lc, _ := callOf(v)
+		return lc != nil && calleeID(&lc.Call) == "builtin len" && tokens != nil && lc.Call.Args[0] == tokens
+	}, isConstIntV(2)) ||
+		factCmpAnywhere(p, token.EQL, func(v ssa.Value) bool {
+			lc, _ := callOf(v)
+			return lc != nil && calleeID(&lc.Call) == "builtin len" && tokens != nil && lc.Call.Args[0] == tokens
+		}, isConstIntV(2))
 	c.check(okN, "pipelineRecvCurrentAck/two-numbers", c.pos(p.Pos()), "the parser insists on exactly two numbers", "the parser does not test for exactly two numbers")
 	// which token becomes which result
 	eachInstr(p, func(in ssa.Instruction) {
